@@ -3,4 +3,7 @@
 set -euo pipefail
 HERE="$(cd "$(dirname "$0")" && pwd)"
 "$HERE/setup_deps.sh" >/dev/null
+# prebuild the witness-search tool against /repo's current tree (checks rebuild it incrementally)
+cp /repo/Cargo.lock "$HERE/replay/Cargo.lock"
+(cd "$HERE/replay" && CARGO_TARGET_DIR="$HERE/../build/replay-target" CARGO_NET_OFFLINE=true cargo build --offline -q 2>/dev/null) || echo "warning: replay tool did not build"
 echo "setup ok"
